@@ -1,0 +1,1886 @@
+	.file	"test_tset.c"
+	.text
+.Ltext0:
+	.file 0 "/repo/aldor/aldor/src" "test/test_tset.c"
+	.globl	String_tsetPointer
+	.section	.data.rel,"aw"
+	.align 8
+	.type	String_tsetPointer, @object
+	.size	String_tsetPointer, 8
+String_tsetPointer:
+	.quad	ptrTSetOps
+	.section	.rodata
+.LC0:
+	.string	"testTSet"
+.LC1:
+	.string	"testTSetIter"
+	.text
+	.globl	tsetTestSuite
+	.type	tsetTestSuite, @function
+tsetTestSuite:
+.LFB0:
+	.file 1 "test/test_tset.c"
+	.loc 1 16 1
+	.cfi_startproc
+	pushq	%rbp
+	.cfi_def_cfa_offset 16
+	.cfi_offset 6, -16
+	movq	%rsp, %rbp
+	.cfi_def_cfa_register 6
+	.loc 1 17 2
+	call	init@PLT
+	.loc 1 18 2
+	leaq	testTSet(%rip), %rax
+	movq	%rax, %rsi
+	leaq	.LC0(%rip), %rax
+	movq	%rax, %rdi
+	call	showTest@PLT
+	.loc 1 19 2
+	leaq	testTSetIter(%rip), %rax
+	movq	%rax, %rsi
+	leaq	.LC1(%rip), %rax
+	movq	%rax, %rdi
+	call	showTest@PLT
+	.loc 1 20 2
+	call	fini@PLT
+	.loc 1 21 1
+	nop
+	popq	%rbp
+	.cfi_def_cfa 7, 8
+	ret
+	.cfi_endproc
+.LFE0:
+	.size	tsetTestSuite, .-tsetTestSuite
+	.section	.rodata
+.LC2:
+	.string	"x"
+.LC3:
+	.string	"y"
+.LC4:
+	.string	""
+	.text
+	.type	testTSet, @function
+testTSet:
+.LFB1:
+	.loc 1 26 1
+	.cfi_startproc
+	pushq	%rbp
+	.cfi_def_cfa_offset 16
+	.cfi_offset 6, -16
+	movq	%rsp, %rbp
+	.cfi_def_cfa_register 6
+	subq	$32, %rsp
+	.loc 1 28 9
+	leaq	.LC2(%rip), %rax
+	movq	%rax, -8(%rbp)
+	.loc 1 29 9
+	leaq	.LC3(%rip), %rax
+	movq	%rax, -16(%rbp)
+	.loc 1 31 27
+	movq	String_tsetPointer(%rip), %rax
+	movq	(%rax), %rax
+	call	*%rax
+.LVL0:
+	movq	%rax, -24(%rbp)
+	.loc 1 32 35
+	movq	String_tsetPointer(%rip), %rax
+	movq	40(%rax), %rcx
+	.loc 1 32 2
+	movq	-8(%rbp), %rdx
+	movq	-24(%rbp), %rax
+	movq	%rdx, %rsi
+	movq	%rax, %rdi
+	call	*%rcx
+.LVL1:
+	movl	%eax, %esi
+	leaq	.LC4(%rip), %rax
+	movq	%rax, %rdi
+	call	testFalse@PLT
+	.loc 1 33 35
+	movq	String_tsetPointer(%rip), %rax
+	movq	40(%rax), %rcx
+	.loc 1 33 2
+	movq	-16(%rbp), %rdx
+	movq	-24(%rbp), %rax
+	movq	%rdx, %rsi
+	movq	%rax, %rdi
+	call	*%rcx
+.LVL2:
+	movl	%eax, %esi
+	leaq	.LC4(%rip), %rax
+	movq	%rax, %rdi
+	call	testFalse@PLT
+	.loc 1 35 21
+	movq	String_tsetPointer(%rip), %rax
+	movq	24(%rax), %rcx
+	movq	-8(%rbp), %rdx
+	movq	-24(%rbp), %rax
+	movq	%rdx, %rsi
+	movq	%rax, %rdi
+	call	*%rcx
+.LVL3:
+	.loc 1 36 34
+	movq	String_tsetPointer(%rip), %rax
+	movq	40(%rax), %rcx
+	.loc 1 36 2
+	movq	-8(%rbp), %rdx
+	movq	-24(%rbp), %rax
+	movq	%rdx, %rsi
+	movq	%rax, %rdi
+	call	*%rcx
+.LVL4:
+	movl	%eax, %esi
+	leaq	.LC4(%rip), %rax
+	movq	%rax, %rdi
+	call	testTrue@PLT
+	.loc 1 37 35
+	movq	String_tsetPointer(%rip), %rax
+	movq	40(%rax), %rcx
+	.loc 1 37 2
+	movq	-16(%rbp), %rdx
+	movq	-24(%rbp), %rax
+	movq	%rdx, %rsi
+	movq	%rax, %rdi
+	call	*%rcx
+.LVL5:
+	movl	%eax, %esi
+	leaq	.LC4(%rip), %rax
+	movq	%rax, %rdi
+	call	testFalse@PLT
+	.loc 1 38 41
+	movq	String_tsetPointer(%rip), %rax
+	movq	16(%rax), %rdx
+	movq	-24(%rbp), %rax
+	movq	%rax, %rdi
+	call	*%rdx
+.LVL6:
+	.loc 1 38 2
+	movl	%eax, %edx
+	movl	$1, %esi
+	leaq	.LC4(%rip), %rax
+	movq	%rax, %rdi
+	call	testIntEqual@PLT
+	.loc 1 40 21
+	movq	String_tsetPointer(%rip), %rax
+	movq	24(%rax), %rcx
+	movq	-16(%rbp), %rdx
+	movq	-24(%rbp), %rax
+	movq	%rdx, %rsi
+	movq	%rax, %rdi
+	call	*%rcx
+.LVL7:
+	.loc 1 41 34
+	movq	String_tsetPointer(%rip), %rax
+	movq	40(%rax), %rcx
+	.loc 1 41 2
+	movq	-8(%rbp), %rdx
+	movq	-24(%rbp), %rax
+	movq	%rdx, %rsi
+	movq	%rax, %rdi
+	call	*%rcx
+.LVL8:
+	movl	%eax, %esi
+	leaq	.LC4(%rip), %rax
+	movq	%rax, %rdi
+	call	testTrue@PLT
+	.loc 1 42 34
+	movq	String_tsetPointer(%rip), %rax
+	movq	40(%rax), %rcx
+	.loc 1 42 2
+	movq	-16(%rbp), %rdx
+	movq	-24(%rbp), %rax
+	movq	%rdx, %rsi
+	movq	%rax, %rdi
+	call	*%rcx
+.LVL9:
+	movl	%eax, %esi
+	leaq	.LC4(%rip), %rax
+	movq	%rax, %rdi
+	call	testTrue@PLT
+	.loc 1 43 41
+	movq	String_tsetPointer(%rip), %rax
+	movq	16(%rax), %rdx
+	movq	-24(%rbp), %rax
+	movq	%rax, %rdi
+	call	*%rdx
+.LVL10:
+	.loc 1 43 2
+	movl	%eax, %edx
+	movl	$2, %esi
+	leaq	.LC4(%rip), %rax
+	movq	%rax, %rdi
+	call	testIntEqual@PLT
+	.loc 1 45 21
+	movq	String_tsetPointer(%rip), %rax
+	movq	32(%rax), %rcx
+	movq	-8(%rbp), %rdx
+	movq	-24(%rbp), %rax
+	movq	%rdx, %rsi
+	movq	%rax, %rdi
+	call	*%rcx
+.LVL11:
+	.loc 1 46 35
+	movq	String_tsetPointer(%rip), %rax
+	movq	40(%rax), %rcx
+	.loc 1 46 2
+	movq	-8(%rbp), %rdx
+	movq	-24(%rbp), %rax
+	movq	%rdx, %rsi
+	movq	%rax, %rdi
+	call	*%rcx
+.LVL12:
+	movl	%eax, %esi
+	leaq	.LC4(%rip), %rax
+	movq	%rax, %rdi
+	call	testFalse@PLT
+	.loc 1 47 34
+	movq	String_tsetPointer(%rip), %rax
+	movq	40(%rax), %rcx
+	.loc 1 47 2
+	movq	-16(%rbp), %rdx
+	movq	-24(%rbp), %rax
+	movq	%rdx, %rsi
+	movq	%rax, %rdi
+	call	*%rcx
+.LVL13:
+	movl	%eax, %esi
+	leaq	.LC4(%rip), %rax
+	movq	%rax, %rdi
+	call	testTrue@PLT
+	.loc 1 48 41
+	movq	String_tsetPointer(%rip), %rax
+	movq	16(%rax), %rdx
+	movq	-24(%rbp), %rax
+	movq	%rax, %rdi
+	call	*%rdx
+.LVL14:
+	.loc 1 48 2
+	movl	%eax, %edx
+	movl	$1, %esi
+	leaq	.LC4(%rip), %rax
+	movq	%rax, %rdi
+	call	testIntEqual@PLT
+	.loc 1 50 21
+	movq	String_tsetPointer(%rip), %rax
+	movq	32(%rax), %rcx
+	movq	-16(%rbp), %rdx
+	movq	-24(%rbp), %rax
+	movq	%rdx, %rsi
+	movq	%rax, %rdi
+	call	*%rcx
+.LVL15:
+	.loc 1 51 35
+	movq	String_tsetPointer(%rip), %rax
+	movq	40(%rax), %rcx
+	.loc 1 51 2
+	movq	-8(%rbp), %rdx
+	movq	-24(%rbp), %rax
+	movq	%rdx, %rsi
+	movq	%rax, %rdi
+	call	*%rcx
+.LVL16:
+	movl	%eax, %esi
+	leaq	.LC4(%rip), %rax
+	movq	%rax, %rdi
+	call	testFalse@PLT
+	.loc 1 52 35
+	movq	String_tsetPointer(%rip), %rax
+	movq	40(%rax), %rcx
+	.loc 1 52 2
+	movq	-16(%rbp), %rdx
+	movq	-24(%rbp), %rax
+	movq	%rdx, %rsi
+	movq	%rax, %rdi
+	call	*%rcx
+.LVL17:
+	movl	%eax, %esi
+	leaq	.LC4(%rip), %rax
+	movq	%rax, %rdi
+	call	testFalse@PLT
+	.loc 1 53 41
+	movq	String_tsetPointer(%rip), %rax
+	movq	16(%rax), %rdx
+	movq	-24(%rbp), %rax
+	movq	%rax, %rdi
+	call	*%rdx
+.LVL18:
+	.loc 1 53 2
+	movl	%eax, %edx
+	movl	$0, %esi
+	leaq	.LC4(%rip), %rax
+	movq	%rax, %rdi
+	call	testIntEqual@PLT
+	.loc 1 55 21
+	movq	String_tsetPointer(%rip), %rax
+	movq	8(%rax), %rdx
+	movq	-24(%rbp), %rax
+	movq	%rax, %rdi
+	call	*%rdx
+.LVL19:
+	.loc 1 56 1
+	nop
+	leave
+	.cfi_def_cfa 7, 8
+	ret
+	.cfi_endproc
+.LFE1:
+	.size	testTSet, .-testTSet
+	.type	testTSetIter, @function
+testTSetIter:
+.LFB2:
+	.loc 1 60 1
+	.cfi_startproc
+	pushq	%rbp
+	.cfi_def_cfa_offset 16
+	.cfi_offset 6, -16
+	movq	%rsp, %rbp
+	.cfi_def_cfa_register 6
+	subq	$32, %rsp
+	.loc 1 65 27
+	movq	String_tsetPointer(%rip), %rax
+	movq	(%rax), %rax
+	call	*%rax
+.LVL20:
+	movq	%rax, -8(%rbp)
+	.loc 1 66 21
+	movq	String_tsetPointer(%rip), %rax
+	movq	24(%rax), %rdx
+	movq	-8(%rbp), %rax
+	leaq	.LC2(%rip), %rcx
+	movq	%rcx, %rsi
+	movq	%rax, %rdi
+	call	*%rdx
+.LVL21:
+	.loc 1 68 28
+	movq	String_tsetPointer(%rip), %rax
+	movq	64(%rax), %rdx
+	movq	-8(%rbp), %rax
+	movq	%rax, %rdi
+	call	*%rdx
+.LVL22:
+	movq	%rax, -16(%rbp)
+	.loc 1 69 34
+	movq	String_tsetPointer(%rip), %rax
+	movq	88(%rax), %rdx
+	.loc 1 69 2
+	movq	-16(%rbp), %rax
+	movq	%rax, %rdi
+	call	*%rdx
+.LVL23:
+	movl	%eax, %esi
+	leaq	.LC4(%rip), %rax
+	movq	%rax, %rdi
+	call	testTrue@PLT
+	.loc 1 71 34
+	movq	String_tsetPointer(%rip), %rax
+	movq	80(%rax), %rdx
+	movq	-16(%rbp), %rax
+	movq	%rax, %rdi
+	call	*%rdx
+.LVL24:
+	movq	%rax, -24(%rbp)
+	.loc 1 72 2
+	movq	-24(%rbp), %rax
+	leaq	.LC2(%rip), %rdx
+	movq	%rax, %rsi
+	leaq	.LC4(%rip), %rax
+	movq	%rax, %rdi
+	call	testPointerEqual@PLT
+	.loc 1 73 28
+	movq	String_tsetPointer(%rip), %rax
+	movq	72(%rax), %rdx
+	movq	-16(%rbp), %rax
+	movq	%rax, %rdi
+	call	*%rdx
+.LVL25:
+	movq	%rax, -16(%rbp)
+	.loc 1 75 35
+	movq	String_tsetPointer(%rip), %rax
+	movq	88(%rax), %rdx
+	.loc 1 75 2
+	movq	-16(%rbp), %rax
+	movq	%rax, %rdi
+	call	*%rdx
+.LVL26:
+	movl	%eax, %esi
+	leaq	.LC4(%rip), %rax
+	movq	%rax, %rdi
+	call	testFalse@PLT
+	.loc 1 76 1
+	nop
+	leave
+	.cfi_def_cfa 7, 8
+	ret
+	.cfi_endproc
+.LFE2:
+	.size	testTSetIter, .-testTSetIter
+.Letext0:
+	.file 2 "/usr/lib/gcc/x86_64-linux-gnu/12/include/stddef.h"
+	.file 3 "./cport.h"
+	.file 4 "./axlgen.h"
+	.file 5 "./table.h"
+	.file 6 "./ttable.h"
+	.file 7 "test/testlib.h"
+	.section	.debug_info,"",@progbits
+.Ldebug_info0:
+	.long	0x74a
+	.value	0x5
+	.byte	0x1
+	.byte	0x8
+	.long	.Ldebug_abbrev0
+	.uleb128 0x13
+	.long	.LASF74
+	.byte	0xc
+	.long	.LASF0
+	.long	.LASF1
+	.quad	.Ltext0
+	.quad	.Letext0-.Ltext0
+	.long	.Ldebug_line0
+	.uleb128 0x14
+	.byte	0x4
+	.byte	0x5
+	.string	"int"
+	.uleb128 0x7
+	.byte	0x1
+	.byte	0x8
+	.long	.LASF2
+	.uleb128 0x7
+	.byte	0x2
+	.byte	0x7
+	.long	.LASF3
+	.uleb128 0x7
+	.byte	0x4
+	.byte	0x7
+	.long	.LASF4
+	.uleb128 0x7
+	.byte	0x8
+	.byte	0x7
+	.long	.LASF5
+	.uleb128 0x7
+	.byte	0x1
+	.byte	0x6
+	.long	.LASF6
+	.uleb128 0x7
+	.byte	0x2
+	.byte	0x5
+	.long	.LASF7
+	.uleb128 0x7
+	.byte	0x8
+	.byte	0x5
+	.long	.LASF8
+	.uleb128 0x15
+	.byte	0x8
+	.uleb128 0x2
+	.long	0x6d
+	.uleb128 0x7
+	.byte	0x1
+	.byte	0x6
+	.long	.LASF9
+	.uleb128 0x7
+	.byte	0x4
+	.byte	0x4
+	.long	.LASF10
+	.uleb128 0x7
+	.byte	0x8
+	.byte	0x4
+	.long	.LASF11
+	.uleb128 0x6
+	.long	.LASF13
+	.byte	0x2
+	.byte	0xd6
+	.byte	0x1b
+	.long	0x4a
+	.uleb128 0x7
+	.byte	0x8
+	.byte	0x5
+	.long	.LASF12
+	.uleb128 0x9
+	.long	.LASF14
+	.value	0x142
+	.byte	0x19
+	.long	0x4a
+	.uleb128 0x9
+	.long	.LASF15
+	.value	0x156
+	.byte	0xd
+	.long	0x2e
+	.uleb128 0x9
+	.long	.LASF16
+	.value	0x157
+	.byte	0xf
+	.long	0x95
+	.uleb128 0x9
+	.long	.LASF17
+	.value	0x158
+	.byte	0x10
+	.long	0x82
+	.uleb128 0x9
+	.long	.LASF18
+	.value	0x166
+	.byte	0x12
+	.long	0x66
+	.uleb128 0x9
+	.long	.LASF19
+	.value	0x16a
+	.byte	0xf
+	.long	0x68
+	.uleb128 0x6
+	.long	.LASF20
+	.byte	0x4
+	.byte	0x2d
+	.byte	0x18
+	.long	0xe9
+	.uleb128 0x2
+	.long	0xee
+	.uleb128 0x8
+	.long	.LASF31
+	.byte	0x30
+	.byte	0x5
+	.byte	0x21
+	.byte	0x8
+	.long	0x14a
+	.uleb128 0x3
+	.long	.LASF21
+	.byte	0x5
+	.byte	0x22
+	.byte	0xd
+	.long	0x162
+	.byte	0
+	.uleb128 0x3
+	.long	.LASF22
+	.byte	0x5
+	.byte	0x23
+	.byte	0xb
+	.long	0x182
+	.byte	0x8
+	.uleb128 0x3
+	.long	.LASF23
+	.byte	0x5
+	.byte	0x24
+	.byte	0xa
+	.long	0xc5
+	.byte	0x10
+	.uleb128 0x3
+	.long	.LASF24
+	.byte	0x5
+	.byte	0x25
+	.byte	0x9
+	.long	0xb9
+	.byte	0x18
+	.uleb128 0x3
+	.long	.LASF25
+	.byte	0x5
+	.byte	0x26
+	.byte	0x9
+	.long	0xb9
+	.byte	0x20
+	.uleb128 0x3
+	.long	.LASF26
+	.byte	0x5
+	.byte	0x27
+	.byte	0x13
+	.long	0x1ee
+	.byte	0x28
+	.byte	0
+	.uleb128 0x6
+	.long	.LASF27
+	.byte	0x5
+	.byte	0xe
+	.byte	0x11
+	.long	0xc5
+	.uleb128 0x6
+	.long	.LASF28
+	.byte	0x5
+	.byte	0xf
+	.byte	0x11
+	.long	0xc5
+	.uleb128 0x6
+	.long	.LASF29
+	.byte	0x5
+	.byte	0x11
+	.byte	0x11
+	.long	0x16e
+	.uleb128 0x2
+	.long	0x173
+	.uleb128 0x5
+	.long	0xad
+	.long	0x182
+	.uleb128 0x1
+	.long	0x14a
+	.byte	0
+	.uleb128 0x6
+	.long	.LASF30
+	.byte	0x5
+	.byte	0x12
+	.byte	0x11
+	.long	0x18e
+	.uleb128 0x2
+	.long	0x193
+	.uleb128 0x5
+	.long	0xa1
+	.long	0x1a7
+	.uleb128 0x1
+	.long	0x14a
+	.uleb128 0x1
+	.long	0x14a
+	.byte	0
+	.uleb128 0x8
+	.long	.LASF32
+	.byte	0x20
+	.byte	0x5
+	.byte	0x1a
+	.byte	0x8
+	.long	0x1e9
+	.uleb128 0xc
+	.string	"key"
+	.byte	0x5
+	.byte	0x1b
+	.byte	0x9
+	.long	0x14a
+	.byte	0
+	.uleb128 0xc
+	.string	"elt"
+	.byte	0x5
+	.byte	0x1c
+	.byte	0x9
+	.long	0x156
+	.byte	0x8
+	.uleb128 0x3
+	.long	.LASF33
+	.byte	0x5
+	.byte	0x1d
+	.byte	0x7
+	.long	0xad
+	.byte	0x10
+	.uleb128 0x3
+	.long	.LASF34
+	.byte	0x5
+	.byte	0x1e
+	.byte	0x12
+	.long	0x1e9
+	.byte	0x18
+	.byte	0
+	.uleb128 0x2
+	.long	0x1a7
+	.uleb128 0x2
+	.long	0x1e9
+	.uleb128 0x16
+	.byte	0x18
+	.byte	0x5
+	.byte	0x2a
+	.byte	0x9
+	.long	0x224
+	.uleb128 0x3
+	.long	.LASF35
+	.byte	0x5
+	.byte	0x2b
+	.byte	0x13
+	.long	0x1ee
+	.byte	0
+	.uleb128 0x3
+	.long	.LASF36
+	.byte	0x5
+	.byte	0x2c
+	.byte	0x13
+	.long	0x1ee
+	.byte	0x8
+	.uleb128 0x3
+	.long	.LASF37
+	.byte	0x5
+	.byte	0x2d
+	.byte	0x12
+	.long	0x1e9
+	.byte	0x10
+	.byte	0
+	.uleb128 0x6
+	.long	.LASF38
+	.byte	0x5
+	.byte	0x2e
+	.byte	0x3
+	.long	0x1f3
+	.uleb128 0x8
+	.long	.LASF39
+	.byte	0x18
+	.byte	0x6
+	.byte	0x7
+	.byte	0x10
+	.long	0x24b
+	.uleb128 0x3
+	.long	.LASF40
+	.byte	0x6
+	.byte	0x7
+	.byte	0x29
+	.long	0x224
+	.byte	0
+	.byte	0
+	.uleb128 0x6
+	.long	.LASF41
+	.byte	0x6
+	.byte	0x7
+	.byte	0x32
+	.long	0x257
+	.uleb128 0x2
+	.long	0x230
+	.uleb128 0x8
+	.long	.LASF42
+	.byte	0x8
+	.byte	0x6
+	.byte	0x42
+	.byte	0x10
+	.long	0x277
+	.uleb128 0x3
+	.long	.LASF31
+	.byte	0x6
+	.byte	0x42
+	.byte	0x25
+	.long	0xdd
+	.byte	0
+	.byte	0
+	.uleb128 0x6
+	.long	.LASF43
+	.byte	0x6
+	.byte	0x42
+	.byte	0x2f
+	.long	0x283
+	.uleb128 0x2
+	.long	0x25c
+	.uleb128 0x6
+	.long	.LASF44
+	.byte	0x6
+	.byte	0x42
+	.byte	0x51
+	.long	0x24b
+	.uleb128 0x8
+	.long	.LASF45
+	.byte	0x68
+	.byte	0x6
+	.byte	0x42
+	.byte	0x69
+	.long	0x354
+	.uleb128 0x3
+	.long	.LASF46
+	.byte	0x6
+	.byte	0x42
+	.byte	0x8f
+	.long	0x35e
+	.byte	0
+	.uleb128 0x3
+	.long	.LASF47
+	.byte	0x6
+	.byte	0x42
+	.byte	0xa6
+	.long	0x36e
+	.byte	0x8
+	.uleb128 0x3
+	.long	.LASF48
+	.byte	0x6
+	.byte	0x42
+	.byte	0xc4
+	.long	0x382
+	.byte	0x10
+	.uleb128 0xc
+	.string	"Add"
+	.byte	0x6
+	.byte	0x42
+	.byte	0xe0
+	.long	0x397
+	.byte	0x18
+	.uleb128 0x4
+	.long	.LASF49
+	.byte	0x6
+	.byte	0x42
+	.value	0x104
+	.long	0x397
+	.byte	0x20
+	.uleb128 0x4
+	.long	.LASF50
+	.byte	0x6
+	.byte	0x42
+	.value	0x12b
+	.long	0x3b0
+	.byte	0x28
+	.uleb128 0x4
+	.long	.LASF51
+	.byte	0x6
+	.byte	0x42
+	.value	0x152
+	.long	0x3c4
+	.byte	0x30
+	.uleb128 0x4
+	.long	.LASF52
+	.byte	0x6
+	.byte	0x42
+	.value	0x177
+	.long	0x35e
+	.byte	0x38
+	.uleb128 0x4
+	.long	.LASF53
+	.byte	0x6
+	.byte	0x42
+	.value	0x197
+	.long	0x3d8
+	.byte	0x40
+	.uleb128 0x4
+	.long	.LASF54
+	.byte	0x6
+	.byte	0x42
+	.value	0x1bd
+	.long	0x3ec
+	.byte	0x48
+	.uleb128 0x4
+	.long	.LASF55
+	.byte	0x6
+	.byte	0x42
+	.value	0x1e3
+	.long	0x400
+	.byte	0x50
+	.uleb128 0x4
+	.long	.LASF56
+	.byte	0x6
+	.byte	0x42
+	.value	0x205
+	.long	0x414
+	.byte	0x58
+	.uleb128 0x4
+	.long	.LASF57
+	.byte	0x6
+	.byte	0x42
+	.value	0x22b
+	.long	0x424
+	.byte	0x60
+	.byte	0
+	.uleb128 0xe
+	.long	0x294
+	.uleb128 0xf
+	.long	0x277
+	.uleb128 0x2
+	.long	0x359
+	.uleb128 0xa
+	.long	0x36e
+	.uleb128 0x1
+	.long	0x277
+	.byte	0
+	.uleb128 0x2
+	.long	0x363
+	.uleb128 0x5
+	.long	0xb9
+	.long	0x382
+	.uleb128 0x1
+	.long	0x277
+	.byte	0
+	.uleb128 0x2
+	.long	0x373
+	.uleb128 0xa
+	.long	0x397
+	.uleb128 0x1
+	.long	0x277
+	.uleb128 0x1
+	.long	0xc5
+	.byte	0
+	.uleb128 0x2
+	.long	0x387
+	.uleb128 0x5
+	.long	0xa1
+	.long	0x3b0
+	.uleb128 0x1
+	.long	0x277
+	.uleb128 0x1
+	.long	0xc5
+	.byte	0
+	.uleb128 0x2
+	.long	0x39c
+	.uleb128 0x5
+	.long	0xa1
+	.long	0x3c4
+	.uleb128 0x1
+	.long	0x277
+	.byte	0
+	.uleb128 0x2
+	.long	0x3b5
+	.uleb128 0x5
+	.long	0x288
+	.long	0x3d8
+	.uleb128 0x1
+	.long	0x277
+	.byte	0
+	.uleb128 0x2
+	.long	0x3c9
+	.uleb128 0x5
+	.long	0x288
+	.long	0x3ec
+	.uleb128 0x1
+	.long	0x288
+	.byte	0
+	.uleb128 0x2
+	.long	0x3dd
+	.uleb128 0x5
+	.long	0xc5
+	.long	0x400
+	.uleb128 0x1
+	.long	0x288
+	.byte	0
+	.uleb128 0x2
+	.long	0x3f1
+	.uleb128 0x5
+	.long	0xa1
+	.long	0x414
+	.uleb128 0x1
+	.long	0x288
+	.byte	0
+	.uleb128 0x2
+	.long	0x405
+	.uleb128 0xa
+	.long	0x424
+	.uleb128 0x1
+	.long	0x288
+	.byte	0
+	.uleb128 0x2
+	.long	0x419
+	.uleb128 0x17
+	.long	.LASF62
+	.byte	0x6
+	.byte	0x44
+	.byte	0x2b
+	.long	0x354
+	.uleb128 0x8
+	.long	.LASF58
+	.byte	0x8
+	.byte	0x1
+	.byte	0x7
+	.byte	0x10
+	.long	0x450
+	.uleb128 0x3
+	.long	.LASF31
+	.byte	0x1
+	.byte	0x7
+	.byte	0x24
+	.long	0xdd
+	.byte	0
+	.byte	0
+	.uleb128 0x6
+	.long	.LASF59
+	.byte	0x1
+	.byte	0x7
+	.byte	0x2e
+	.long	0x45c
+	.uleb128 0x2
+	.long	0x435
+	.uleb128 0x6
+	.long	.LASF60
+	.byte	0x1
+	.byte	0x7
+	.byte	0x4f
+	.long	0x24b
+	.uleb128 0x8
+	.long	.LASF61
+	.byte	0x68
+	.byte	0x1
+	.byte	0x7
+	.byte	0x66
+	.long	0x52c
+	.uleb128 0x3
+	.long	.LASF46
+	.byte	0x1
+	.byte	0x7
+	.byte	0x8a
+	.long	0x536
+	.byte	0
+	.uleb128 0x3
+	.long	.LASF47
+	.byte	0x1
+	.byte	0x7
+	.byte	0xa1
+	.long	0x546
+	.byte	0x8
+	.uleb128 0x3
+	.long	.LASF48
+	.byte	0x1
+	.byte	0x7
+	.byte	0xbe
+	.long	0x55a
+	.byte	0x10
+	.uleb128 0xc
+	.string	"Add"
+	.byte	0x1
+	.byte	0x7
+	.byte	0xd9
+	.long	0x56f
+	.byte	0x18
+	.uleb128 0x3
+	.long	.LASF49
+	.byte	0x1
+	.byte	0x7
+	.byte	0xfb
+	.long	0x56f
+	.byte	0x20
+	.uleb128 0x4
+	.long	.LASF50
+	.byte	0x1
+	.byte	0x7
+	.value	0x120
+	.long	0x588
+	.byte	0x28
+	.uleb128 0x4
+	.long	.LASF51
+	.byte	0x1
+	.byte	0x7
+	.value	0x145
+	.long	0x59c
+	.byte	0x30
+	.uleb128 0x4
+	.long	.LASF52
+	.byte	0x1
+	.byte	0x7
+	.value	0x168
+	.long	0x536
+	.byte	0x38
+	.uleb128 0x4
+	.long	.LASF53
+	.byte	0x1
+	.byte	0x7
+	.value	0x187
+	.long	0x5b0
+	.byte	0x40
+	.uleb128 0x4
+	.long	.LASF54
+	.byte	0x1
+	.byte	0x7
+	.value	0x1ab
+	.long	0x5c4
+	.byte	0x48
+	.uleb128 0x4
+	.long	.LASF55
+	.byte	0x1
+	.byte	0x7
+	.value	0x1cf
+	.long	0x5d8
+	.byte	0x50
+	.uleb128 0x4
+	.long	.LASF56
+	.byte	0x1
+	.byte	0x7
+	.value	0x1f0
+	.long	0x5ec
+	.byte	0x58
+	.uleb128 0x4
+	.long	.LASF57
+	.byte	0x1
+	.byte	0x7
+	.value	0x215
+	.long	0x5fc
+	.byte	0x60
+	.byte	0
+	.uleb128 0xe
+	.long	0x46d
+	.uleb128 0xf
+	.long	0x450
+	.uleb128 0x2
+	.long	0x531
+	.uleb128 0xa
+	.long	0x546
+	.uleb128 0x1
+	.long	0x450
+	.byte	0
+	.uleb128 0x2
+	.long	0x53b
+	.uleb128 0x5
+	.long	0xb9
+	.long	0x55a
+	.uleb128 0x1
+	.long	0x450
+	.byte	0
+	.uleb128 0x2
+	.long	0x54b
+	.uleb128 0xa
+	.long	0x56f
+	.uleb128 0x1
+	.long	0x450
+	.uleb128 0x1
+	.long	0xd1
+	.byte	0
+	.uleb128 0x2
+	.long	0x55f
+	.uleb128 0x5
+	.long	0xa1
+	.long	0x588
+	.uleb128 0x1
+	.long	0x450
+	.uleb128 0x1
+	.long	0xd1
+	.byte	0
+	.uleb128 0x2
+	.long	0x574
+	.uleb128 0x5
+	.long	0xa1
+	.long	0x59c
+	.uleb128 0x1
+	.long	0x450
+	.byte	0
+	.uleb128 0x2
+	.long	0x58d
+	.uleb128 0x5
+	.long	0x461
+	.long	0x5b0
+	.uleb128 0x1
+	.long	0x450
+	.byte	0
+	.uleb128 0x2
+	.long	0x5a1
+	.uleb128 0x5
+	.long	0x461
+	.long	0x5c4
+	.uleb128 0x1
+	.long	0x461
+	.byte	0
+	.uleb128 0x2
+	.long	0x5b5
+	.uleb128 0x5
+	.long	0xd1
+	.long	0x5d8
+	.uleb128 0x1
+	.long	0x461
+	.byte	0
+	.uleb128 0x2
+	.long	0x5c9
+	.uleb128 0x5
+	.long	0xa1
+	.long	0x5ec
+	.uleb128 0x1
+	.long	0x461
+	.byte	0
+	.uleb128 0x2
+	.long	0x5dd
+	.uleb128 0xa
+	.long	0x5fc
+	.uleb128 0x1
+	.long	0x461
+	.byte	0
+	.uleb128 0x2
+	.long	0x5f1
+	.uleb128 0x18
+	.long	.LASF63
+	.byte	0x1
+	.byte	0x7
+	.value	0x25d
+	.long	0x60e
+	.uleb128 0x2
+	.long	0x52c
+	.uleb128 0x19
+	.long	0x601
+	.byte	0x9
+	.byte	0x24
+	.uleb128 0x9
+	.byte	0x3
+	.quad	String_tsetPointer
+	.uleb128 0xb
+	.long	.LASF64
+	.byte	0x7
+	.long	0x63e
+	.uleb128 0x1
+	.long	0xd1
+	.uleb128 0x1
+	.long	0x66
+	.uleb128 0x1
+	.long	0x66
+	.byte	0
+	.uleb128 0xb
+	.long	.LASF65
+	.byte	0x8
+	.long	0x658
+	.uleb128 0x1
+	.long	0xd1
+	.uleb128 0x1
+	.long	0x2e
+	.uleb128 0x1
+	.long	0x2e
+	.byte	0
+	.uleb128 0xb
+	.long	.LASF66
+	.byte	0xc
+	.long	0x66d
+	.uleb128 0x1
+	.long	0xd1
+	.uleb128 0x1
+	.long	0xa1
+	.byte	0
+	.uleb128 0xb
+	.long	.LASF67
+	.byte	0xd
+	.long	0x682
+	.uleb128 0x1
+	.long	0xd1
+	.uleb128 0x1
+	.long	0xa1
+	.byte	0
+	.uleb128 0x10
+	.long	.LASF69
+	.byte	0x18
+	.uleb128 0xb
+	.long	.LASF68
+	.byte	0x15
+	.long	0x69d
+	.uleb128 0x1
+	.long	0x68
+	.uleb128 0x1
+	.long	0x69d
+	.byte	0
+	.uleb128 0x2
+	.long	0x6a2
+	.uleb128 0x1a
+	.uleb128 0x10
+	.long	.LASF70
+	.byte	0x17
+	.uleb128 0x11
+	.long	.LASF72
+	.byte	0x3b
+	.quad	.LFB2
+	.quad	.LFE2-.LFB2
+	.uleb128 0x1
+	.byte	0x9c
+	.long	0x6f0
+	.uleb128 0xd
+	.string	"set"
+	.byte	0x3d
+	.byte	0xd
+	.long	0x450
+	.uleb128 0x2
+	.byte	0x91
+	.sleb128 -24
+	.uleb128 0x12
+	.long	.LASF40
+	.byte	0x3e
+	.byte	0x11
+	.long	0x461
+	.uleb128 0x2
+	.byte	0x91
+	.sleb128 -32
+	.uleb128 0x12
+	.long	.LASF71
+	.byte	0x3f
+	.byte	0x9
+	.long	0xd1
+	.uleb128 0x2
+	.byte	0x91
+	.sleb128 -40
+	.byte	0
+	.uleb128 0x11
+	.long	.LASF73
+	.byte	0x19
+	.quad	.LFB1
+	.quad	.LFE1-.LFB1
+	.uleb128 0x1
+	.byte	0x9c
+	.long	0x733
+	.uleb128 0xd
+	.string	"set"
+	.byte	0x1b
+	.byte	0xd
+	.long	0x450
+	.uleb128 0x2
+	.byte	0x91
+	.sleb128 -40
+	.uleb128 0xd
+	.string	"x"
+	.byte	0x1c
+	.byte	0x9
+	.long	0xd1
+	.uleb128 0x2
+	.byte	0x91
+	.sleb128 -24
+	.uleb128 0xd
+	.string	"y"
+	.byte	0x1d
+	.byte	0x9
+	.long	0xd1
+	.uleb128 0x2
+	.byte	0x91
+	.sleb128 -32
+	.byte	0
+	.uleb128 0x1b
+	.long	.LASF75
+	.byte	0x1
+	.byte	0xf
+	.byte	0x1
+	.quad	.LFB0
+	.quad	.LFE0-.LFB0
+	.uleb128 0x1
+	.byte	0x9c
+	.byte	0
+	.section	.debug_abbrev,"",@progbits
+.Ldebug_abbrev0:
+	.uleb128 0x1
+	.uleb128 0x5
+	.byte	0
+	.uleb128 0x49
+	.uleb128 0x13
+	.byte	0
+	.byte	0
+	.uleb128 0x2
+	.uleb128 0xf
+	.byte	0
+	.uleb128 0xb
+	.uleb128 0x21
+	.sleb128 8
+	.uleb128 0x49
+	.uleb128 0x13
+	.byte	0
+	.byte	0
+	.uleb128 0x3
+	.uleb128 0xd
+	.byte	0
+	.uleb128 0x3
+	.uleb128 0xe
+	.uleb128 0x3a
+	.uleb128 0xb
+	.uleb128 0x3b
+	.uleb128 0xb
+	.uleb128 0x39
+	.uleb128 0xb
+	.uleb128 0x49
+	.uleb128 0x13
+	.uleb128 0x38
+	.uleb128 0xb
+	.byte	0
+	.byte	0
+	.uleb128 0x4
+	.uleb128 0xd
+	.byte	0
+	.uleb128 0x3
+	.uleb128 0xe
+	.uleb128 0x3a
+	.uleb128 0xb
+	.uleb128 0x3b
+	.uleb128 0xb
+	.uleb128 0x39
+	.uleb128 0x5
+	.uleb128 0x49
+	.uleb128 0x13
+	.uleb128 0x38
+	.uleb128 0xb
+	.byte	0
+	.byte	0
+	.uleb128 0x5
+	.uleb128 0x15
+	.byte	0x1
+	.uleb128 0x27
+	.uleb128 0x19
+	.uleb128 0x49
+	.uleb128 0x13
+	.uleb128 0x1
+	.uleb128 0x13
+	.byte	0
+	.byte	0
+	.uleb128 0x6
+	.uleb128 0x16
+	.byte	0
+	.uleb128 0x3
+	.uleb128 0xe
+	.uleb128 0x3a
+	.uleb128 0xb
+	.uleb128 0x3b
+	.uleb128 0xb
+	.uleb128 0x39
+	.uleb128 0xb
+	.uleb128 0x49
+	.uleb128 0x13
+	.byte	0
+	.byte	0
+	.uleb128 0x7
+	.uleb128 0x24
+	.byte	0
+	.uleb128 0xb
+	.uleb128 0xb
+	.uleb128 0x3e
+	.uleb128 0xb
+	.uleb128 0x3
+	.uleb128 0xe
+	.byte	0
+	.byte	0
+	.uleb128 0x8
+	.uleb128 0x13
+	.byte	0x1
+	.uleb128 0x3
+	.uleb128 0xe
+	.uleb128 0xb
+	.uleb128 0xb
+	.uleb128 0x3a
+	.uleb128 0xb
+	.uleb128 0x3b
+	.uleb128 0xb
+	.uleb128 0x39
+	.uleb128 0xb
+	.uleb128 0x1
+	.uleb128 0x13
+	.byte	0
+	.byte	0
+	.uleb128 0x9
+	.uleb128 0x16
+	.byte	0
+	.uleb128 0x3
+	.uleb128 0xe
+	.uleb128 0x3a
+	.uleb128 0x21
+	.sleb128 3
+	.uleb128 0x3b
+	.uleb128 0x5
+	.uleb128 0x39
+	.uleb128 0xb
+	.uleb128 0x49
+	.uleb128 0x13
+	.byte	0
+	.byte	0
+	.uleb128 0xa
+	.uleb128 0x15
+	.byte	0x1
+	.uleb128 0x27
+	.uleb128 0x19
+	.uleb128 0x1
+	.uleb128 0x13
+	.byte	0
+	.byte	0
+	.uleb128 0xb
+	.uleb128 0x2e
+	.byte	0x1
+	.uleb128 0x3f
+	.uleb128 0x19
+	.uleb128 0x3
+	.uleb128 0xe
+	.uleb128 0x3a
+	.uleb128 0x21
+	.sleb128 7
+	.uleb128 0x3b
+	.uleb128 0xb
+	.uleb128 0x39
+	.uleb128 0x21
+	.sleb128 6
+	.uleb128 0x27
+	.uleb128 0x19
+	.uleb128 0x3c
+	.uleb128 0x19
+	.uleb128 0x1
+	.uleb128 0x13
+	.byte	0
+	.byte	0
+	.uleb128 0xc
+	.uleb128 0xd
+	.byte	0
+	.uleb128 0x3
+	.uleb128 0x8
+	.uleb128 0x3a
+	.uleb128 0xb
+	.uleb128 0x3b
+	.uleb128 0xb
+	.uleb128 0x39
+	.uleb128 0xb
+	.uleb128 0x49
+	.uleb128 0x13
+	.uleb128 0x38
+	.uleb128 0xb
+	.byte	0
+	.byte	0
+	.uleb128 0xd
+	.uleb128 0x34
+	.byte	0
+	.uleb128 0x3
+	.uleb128 0x8
+	.uleb128 0x3a
+	.uleb128 0x21
+	.sleb128 1
+	.uleb128 0x3b
+	.uleb128 0xb
+	.uleb128 0x39
+	.uleb128 0xb
+	.uleb128 0x49
+	.uleb128 0x13
+	.uleb128 0x2
+	.uleb128 0x18
+	.byte	0
+	.byte	0
+	.uleb128 0xe
+	.uleb128 0x26
+	.byte	0
+	.uleb128 0x49
+	.uleb128 0x13
+	.byte	0
+	.byte	0
+	.uleb128 0xf
+	.uleb128 0x15
+	.byte	0
+	.uleb128 0x27
+	.uleb128 0x19
+	.uleb128 0x49
+	.uleb128 0x13
+	.byte	0
+	.byte	0
+	.uleb128 0x10
+	.uleb128 0x2e
+	.byte	0
+	.uleb128 0x3f
+	.uleb128 0x19
+	.uleb128 0x3
+	.uleb128 0xe
+	.uleb128 0x3a
+	.uleb128 0x21
+	.sleb128 7
+	.uleb128 0x3b
+	.uleb128 0xb
+	.uleb128 0x39
+	.uleb128 0x21
+	.sleb128 6
+	.uleb128 0x27
+	.uleb128 0x19
+	.uleb128 0x3c
+	.uleb128 0x19
+	.byte	0
+	.byte	0
+	.uleb128 0x11
+	.uleb128 0x2e
+	.byte	0x1
+	.uleb128 0x3
+	.uleb128 0xe
+	.uleb128 0x3a
+	.uleb128 0x21
+	.sleb128 1
+	.uleb128 0x3b
+	.uleb128 0xb
+	.uleb128 0x39
+	.uleb128 0x21
+	.sleb128 1
+	.uleb128 0x27
+	.uleb128 0x19
+	.uleb128 0x11
+	.uleb128 0x1
+	.uleb128 0x12
+	.uleb128 0x7
+	.uleb128 0x40
+	.uleb128 0x18
+	.uleb128 0x7c
+	.uleb128 0x19
+	.uleb128 0x1
+	.uleb128 0x13
+	.byte	0
+	.byte	0
+	.uleb128 0x12
+	.uleb128 0x34
+	.byte	0
+	.uleb128 0x3
+	.uleb128 0xe
+	.uleb128 0x3a
+	.uleb128 0x21
+	.sleb128 1
+	.uleb128 0x3b
+	.uleb128 0xb
+	.uleb128 0x39
+	.uleb128 0xb
+	.uleb128 0x49
+	.uleb128 0x13
+	.uleb128 0x2
+	.uleb128 0x18
+	.byte	0
+	.byte	0
+	.uleb128 0x13
+	.uleb128 0x11
+	.byte	0x1
+	.uleb128 0x25
+	.uleb128 0xe
+	.uleb128 0x13
+	.uleb128 0xb
+	.uleb128 0x3
+	.uleb128 0x1f
+	.uleb128 0x1b
+	.uleb128 0x1f
+	.uleb128 0x11
+	.uleb128 0x1
+	.uleb128 0x12
+	.uleb128 0x7
+	.uleb128 0x10
+	.uleb128 0x17
+	.byte	0
+	.byte	0
+	.uleb128 0x14
+	.uleb128 0x24
+	.byte	0
+	.uleb128 0xb
+	.uleb128 0xb
+	.uleb128 0x3e
+	.uleb128 0xb
+	.uleb128 0x3
+	.uleb128 0x8
+	.byte	0
+	.byte	0
+	.uleb128 0x15
+	.uleb128 0xf
+	.byte	0
+	.uleb128 0xb
+	.uleb128 0xb
+	.byte	0
+	.byte	0
+	.uleb128 0x16
+	.uleb128 0x13
+	.byte	0x1
+	.uleb128 0xb
+	.uleb128 0xb
+	.uleb128 0x3a
+	.uleb128 0xb
+	.uleb128 0x3b
+	.uleb128 0xb
+	.uleb128 0x39
+	.uleb128 0xb
+	.uleb128 0x1
+	.uleb128 0x13
+	.byte	0
+	.byte	0
+	.uleb128 0x17
+	.uleb128 0x34
+	.byte	0
+	.uleb128 0x3
+	.uleb128 0xe
+	.uleb128 0x3a
+	.uleb128 0xb
+	.uleb128 0x3b
+	.uleb128 0xb
+	.uleb128 0x39
+	.uleb128 0xb
+	.uleb128 0x49
+	.uleb128 0x13
+	.uleb128 0x3f
+	.uleb128 0x19
+	.uleb128 0x3c
+	.uleb128 0x19
+	.byte	0
+	.byte	0
+	.uleb128 0x18
+	.uleb128 0x34
+	.byte	0
+	.uleb128 0x3
+	.uleb128 0xe
+	.uleb128 0x3a
+	.uleb128 0xb
+	.uleb128 0x3b
+	.uleb128 0xb
+	.uleb128 0x39
+	.uleb128 0x5
+	.uleb128 0x49
+	.uleb128 0x13
+	.uleb128 0x3f
+	.uleb128 0x19
+	.uleb128 0x3c
+	.uleb128 0x19
+	.byte	0
+	.byte	0
+	.uleb128 0x19
+	.uleb128 0x34
+	.byte	0
+	.uleb128 0x47
+	.uleb128 0x13
+	.uleb128 0x3b
+	.uleb128 0xb
+	.uleb128 0x39
+	.uleb128 0xb
+	.uleb128 0x2
+	.uleb128 0x18
+	.byte	0
+	.byte	0
+	.uleb128 0x1a
+	.uleb128 0x15
+	.byte	0
+	.uleb128 0x27
+	.uleb128 0x19
+	.byte	0
+	.byte	0
+	.uleb128 0x1b
+	.uleb128 0x2e
+	.byte	0
+	.uleb128 0x3f
+	.uleb128 0x19
+	.uleb128 0x3
+	.uleb128 0xe
+	.uleb128 0x3a
+	.uleb128 0xb
+	.uleb128 0x3b
+	.uleb128 0xb
+	.uleb128 0x39
+	.uleb128 0xb
+	.uleb128 0x27
+	.uleb128 0x19
+	.uleb128 0x11
+	.uleb128 0x1
+	.uleb128 0x12
+	.uleb128 0x7
+	.uleb128 0x40
+	.uleb128 0x18
+	.uleb128 0x7c
+	.uleb128 0x19
+	.byte	0
+	.byte	0
+	.byte	0
+	.section	.debug_aranges,"",@progbits
+	.long	0x2c
+	.value	0x2
+	.long	.Ldebug_info0
+	.byte	0x8
+	.byte	0
+	.value	0
+	.value	0
+	.quad	.Ltext0
+	.quad	.Letext0-.Ltext0
+	.quad	0
+	.quad	0
+	.section	.debug_line,"",@progbits
+.Ldebug_line0:
+	.section	.debug_str,"MS",@progbits,1
+.LASF48:
+	.string	"Size"
+.LASF54:
+	.string	"IterNext"
+.LASF38:
+	.string	"TableIterator"
+.LASF55:
+	.string	"IterElt"
+.LASF44:
+	.string	"PointerTSetIter"
+.LASF61:
+	.string	"String_tsetOpsStruct"
+.LASF14:
+	.string	"UAInt"
+.LASF7:
+	.string	"short int"
+.LASF13:
+	.string	"size_t"
+.LASF72:
+	.string	"testTSetIter"
+.LASF57:
+	.string	"IterDone"
+.LASF16:
+	.string	"Hash"
+.LASF25:
+	.string	"buckc"
+.LASF56:
+	.string	"IterHasNext"
+.LASF31:
+	.string	"table"
+.LASF51:
+	.string	"IsEmpty"
+.LASF58:
+	.string	"String_TSet"
+.LASF67:
+	.string	"testFalse"
+.LASF37:
+	.string	"link"
+.LASF26:
+	.string	"buckv"
+.LASF22:
+	.string	"eqFun"
+.LASF10:
+	.string	"float"
+.LASF73:
+	.string	"testTSet"
+.LASF12:
+	.string	"long long int"
+.LASF42:
+	.string	"Pointer_TSet"
+.LASF39:
+	.string	"tsetIter"
+.LASF23:
+	.string	"info"
+.LASF27:
+	.string	"TblKey"
+.LASF29:
+	.string	"TblHashFun"
+.LASF8:
+	.string	"long int"
+.LASF64:
+	.string	"testPointerEqual"
+.LASF43:
+	.string	"PointerTSet"
+.LASF18:
+	.string	"Pointer"
+.LASF2:
+	.string	"unsigned char"
+.LASF33:
+	.string	"hash"
+.LASF20:
+	.string	"Table"
+.LASF6:
+	.string	"signed char"
+.LASF59:
+	.string	"StringTSet"
+.LASF50:
+	.string	"Member"
+.LASF4:
+	.string	"unsigned int"
+.LASF5:
+	.string	"long unsigned int"
+.LASF65:
+	.string	"testIntEqual"
+.LASF36:
+	.string	"last"
+.LASF19:
+	.string	"String"
+.LASF74:
+	.string	"GNU C99 12.2.0 -mtune=generic -march=x86-64 -g -O0 -std=c99 -fasynchronous-unwind-tables"
+.LASF3:
+	.string	"short unsigned int"
+.LASF21:
+	.string	"hashFun"
+.LASF9:
+	.string	"char"
+.LASF70:
+	.string	"init"
+.LASF46:
+	.string	"Create"
+.LASF35:
+	.string	"curr"
+.LASF17:
+	.string	"Length"
+.LASF69:
+	.string	"fini"
+.LASF53:
+	.string	"Iter"
+.LASF62:
+	.string	"ptrTSetOps"
+.LASF11:
+	.string	"double"
+.LASF24:
+	.string	"count"
+.LASF75:
+	.string	"tsetTestSuite"
+.LASF68:
+	.string	"showTest"
+.LASF30:
+	.string	"TblEqFun"
+.LASF40:
+	.string	"iter"
+.LASF60:
+	.string	"StringTSetIter"
+.LASF28:
+	.string	"TblElt"
+.LASF32:
+	.string	"TblSlot"
+.LASF45:
+	.string	"Pointer_tsetOpsStruct"
+.LASF71:
+	.string	"someString"
+.LASF41:
+	.string	"ANY_TSetIter"
+.LASF66:
+	.string	"testTrue"
+.LASF63:
+	.string	"String_tsetPointer"
+.LASF52:
+	.string	"Empty"
+.LASF34:
+	.string	"next"
+.LASF49:
+	.string	"Remove"
+.LASF47:
+	.string	"Free"
+.LASF15:
+	.string	"Bool"
+	.section	.debug_line_str,"MS",@progbits,1
+.LASF1:
+	.string	"/repo/aldor/aldor/src"
+.LASF0:
+	.string	"test/test_tset.c"
+	.ident	"GCC: (Debian 12.2.0-14+deb12u1) 12.2.0"
+	.section	.note.GNU-stack,"",@progbits
